@@ -403,7 +403,8 @@ class SymX:
                 # mutator calls on locals: append
                 c = s.value
                 if isinstance(c.func, ast.Attribute) and isinstance(c.func.value, ast.Name) and c.func.value.id in st.env \
-                        and c.func.attr in ("append", "extend", "add") and len(c.args) == 1 and not self._resolves(c, f):
+                        and c.func.attr in ("append", "extend", "add") and len(c.args) == 1 and not self._resolves(c, f) \
+                        and st.env[c.func.value.id][0] not in ("mcall", "idx", "attr", "call", "apply"):
                     n = c.func.value.id
                     arg = ev(c.args[0])
                     if c.func.attr == "extend":
@@ -717,6 +718,15 @@ class SymX:
                     and isinstance(g2.target, ast.Name) and isinstance(e.elt, ast.Name) and e.elt.id == g2.target.id \
                     and not g1.ifs and not g2.ifs:
                 return ("flatten", self.expr(g1.iter, st, f, depth))
+        if len(e.generators) >= 2 and isinstance(e, (ast.ListComp, ast.GeneratorExp)):
+            # [E for a in A for b in B] == flatten([[E for b in B] for a in A])
+            inner = type(e)(elt=e.elt, generators=e.generators[1:])
+            outer = ast.ListComp(elt=inner, generators=e.generators[:1])
+            for n in (inner, outer):
+                ast.copy_location(n, e)
+            inner.parent = outer
+            outer.parent = getattr(e, "parent", None)
+            return ("flatten", self.comprehension(outer, st, f, depth))
         if len(e.generators) != 1:
             raise Unsupported("nested comprehension generators")
         gen = e.generators[0]
